@@ -166,4 +166,11 @@ const char *vm_error_string(VmResult result);
  * Returns the module index, or (uint32_t)-1 on error. */
 uint32_t vm_link_module(VmState *vm, const NvmModule *mod);
 
+#ifdef NANOLANG_VERIF
+/* Verification hooks (h1, h2): instruction budget and per-instruction observer for vm_core_execute.
+ * vm_verif_fuel < 0 means unlimited (default; also settable through env NANOLANG_VERIF_FUEL). */
+extern long long vm_verif_fuel;
+extern void (*vm_verif_step_cb)(VmState *vm, const DecodedInstruction *instr, uint32_t instr_start);
+#endif
+
 #endif /* NANOVM_VM_H */
